@@ -1,6 +1,6 @@
 ------------------------------- MODULE MC_Spline -------------------------------
 EXTENDS Integers, Sequences, FiniteSets, TLC, TLCExt, Json, CSV, IOUtils, SequencesExt
-CONSTANTS Emit, MaxInner, MaxDegree
+CONSTANTS Emit, MaxInner, MaxDegree, GuardVariant          \* GuardVariant: "mask" (the design); "minmax" / "notin" are refuted by GuardLaw
 S == INSTANCE Spline
 
 \* integer knot vectors on 0..6: bounds 0 and 6 (or 5), strictly increasing or tied inner knots
@@ -24,17 +24,36 @@ BsLaws == kind = "bs" =>
       /\ Len(r.row) = S!NCols(RInner, d, TRUE)
       /\ Len(S!BsRow(Lo, RInner, Hi, d, FALSE, "zero", x).row) = S!NCols(RInner, d, FALSE)
       /\ Len(S!Padded(Lo, RInner, Hi, d)) = S!NCols(RInner, d, TRUE) + d + 1
+\* Vectors with nulls (C12 quantifies over "all real vectors x (with ties, out-of-range values, nulls)"): selections of grid positions -
+\* inside the bounds (both bounds included); a value below, first; a value above, last; one below and one above in the middle; ties and
+\* the first point above - crossed with where the nulls sit: nowhere, on the first / second / last position, on the first and the last.  So
+\* a null accompanies an out-of-range value at either side of it, REPLACES it (then nothing is out of range), or stands among in-range values.
+Sels == <<<<5, 9, 16, 4, 12>>, <<2, 9, 12>>, <<9, 12, 18>>, <<9, 1, 19, 12>>, <<10, 10, 17>>>>
+NVecs == 5 * Len(Sels)
+Sel(i) == Sels[((i - 1) \div 5) + 1]
+Nulls(i) == LET n == Len(Sel(i)) IN <<{}, {1}, {2}, {n}, {1, n}>>[((i - 1) % 5) + 1]
+XS(i) == [p \in DOMAIN Sel(i) |-> S!Norm(Grid[Sel(i)[p]][1], Grid[Sel(i)[p]][2])]
+\* the 'raise' verdict on a vector is the guard algorithm's: holds for "mask"; TLC must refute "minmax" (a null shields the values next to
+\* it) and "notin" (a null alone raises) on this family - which is what makes the emitted verdicts below discriminate between them
+GuardLaw == kind = "bs" /\ mode = "raise" =>
+   \A i \in 1..NVecs : S!RaiseGuard(GuardVariant, Lo, Hi, XS(i), Nulls(i)) <=> (S!BsVec(Lo, RInner, Hi, d, icpt, mode, XS(i), Nulls(i)).st = "ERROR")
 CubicLaws == kind = "cubic" =>
    /\ S!Cardinal(Knots, cyclic) /\ S!C1AtInnerKnots(Knots, cyclic)
    /\ (~cyclic => S!NaturalEnds(Knots)) /\ (cyclic => S!PeriodicWrap(Knots))
 
 RowOut(r) == [st |-> r.st, row |-> r.row]
+GridRows == [g \in DOMAIN Grid |-> RowOut(S!BsRow(Lo, RInner, Hi, d, icpt, mode, S!Norm(Grid[g][1], Grid[g][2])))]
 Out == IOEnv.OUT_FILE
 EmitCase == Emit =>
   IF kind = "bs"
-  THEN CSVWrite("%1$s", <<ToJson([kind |-> kind, inner |-> inner, degree |-> d, intercept |-> icpt, mode |-> mode, lo |-> 0, hi |-> 6,
+  THEN LET GR == <<>> \o GridRows IN          \* concatenation makes the tuple explicit: the rows are computed once per case, not once per use below
+       CSVWrite("%1$s", <<ToJson([kind |-> kind, inner |-> inner, degree |-> d, intercept |-> icpt, mode |-> mode, lo |-> 0, hi |-> 6,
           knots |-> S!Padded(Lo, RInner, Hi, d), x |-> [g \in DOMAIN Grid |-> S!Norm(Grid[g][1], Grid[g][2])],
-          rows |-> [g \in DOMAIN Grid |-> RowOut(S!BsRow(Lo, RInner, Hi, d, icpt, mode, S!Norm(Grid[g][1], Grid[g][2])))]])>>, Out)
+          rows |-> GR,
+          \* a vector's rows are by definition (Spline!BsVec) the per-value outcomes, i.e. the grid rows above at the selected positions, with
+          \* the null positions missing: emitted are the selection, the null mask, the verdict of the call and the status of every row
+          vecs |-> [i \in 1..NVecs |-> LET o == S!VecOutcome([p \in DOMAIN Sel(i) |-> GR[Sel(i)[p]]], Nulls(i)) IN
+                      [sel |-> Sel(i), null |-> [p \in DOMAIN Sel(i) |-> p \in Nulls(i)], st |-> o.st, rst |-> [p \in DOMAIN o.rows |-> o.rows[p].st]]]])>>, Out)
   ELSE CSVWrite("%1$s", <<ToJson([kind |-> kind, inner |-> inner, cyclic |-> cyclic, lo |-> 0, hi |-> 6,
           x |-> [g \in DOMAIN Grid |-> S!Norm(Grid[g][1], Grid[g][2])],
           rows |-> [g \in DOMAIN Grid |-> S!CubicRow(Knots, cyclic, S!Norm(Grid[g][1], Grid[g][2]))]])>>, Out)
